@@ -278,6 +278,73 @@ fn run_check(args: &[String]) -> i32 {
     v.exit
 }
 
+fn case_from_json(j: &minijson::J) -> Option<Case> {
+    let tcs: Vec<String> = j.get("test_cases_hex")?.arr().iter().filter_map(|x| x.str().and_then(unhex)).collect();
+    Some(Case {
+        tcs,
+        cfg: Cfg { bits: j.get("bits")?.num()? as u32, min_rep: j.get("min_rep")?.num()? as u32, min_len: j.get("min_len")?.num()? as u32 },
+    })
+}
+
+/// `gv replay <file>`: re-runs the recorded input against the current tree.
+fn run_replay(args: &[String]) -> i32 {
+    silence_panics();
+    let path = &args[2];
+    let text = std::fs::read_to_string(path).expect("replay file");
+    let j = minijson::parse(&text).expect("replay file is not JSON");
+    let prop = j.get("property").and_then(|x| x.str()).unwrap_or("").to_string();
+    let ctx = make_ctx(args, &prop);
+    println!("# replay of {} ({})", path, j.get("kind").and_then(|x| x.str()).unwrap_or("?"));
+    let case = j.get("case").and_then(case_from_json).or_else(|| j.get("first_difference").and_then(|d| d.get("case")).and_then(case_from_json));
+    let Some(case) = case else {
+        println!("# the replay names a broken obligation, not an input: {}", j.get("broken").and_then(|x| x.str()).unwrap_or(""));
+        if let Some(l) = j.get("lean").and_then(|x| x.str()) {
+            println!("{}", l);
+        }
+        println!("# re-run the check itself to see whether the obligation checks again: ./check {}", prop);
+        return 1;
+    };
+    println!("# input: {}", case.describe());
+    let built = build_impl(&case);
+    println!("# implementation returns: {:?}", built);
+    let mut rng = Rng(ctx.seed);
+    let plan = props::plan(&ctx, &mut rng, ctx.tier);
+    let fails: Vec<judge::Fail> = match prop.as_str() {
+        "C10" => custom::c10_variants(&case, ctx.seed),
+        "C12" | "C14" | "C17" => vec![],
+        _ => (plan.judge)(&case, &built),
+    };
+    let rejudge = |c: &Case| -> Vec<judge::Fail> { (plan.judge)(c, &build_impl(c)) };
+    let mut bad = 0;
+    for f in &fails {
+        match check::classify(&ctx, &case, f, &rejudge) {
+            Some(k) => println!("KNOWN-FINDING: property={} {} [{}]", prop, k.what, k.id),
+            None => {
+                bad += 1;
+                println!("# {:?}: {}", f.kind, f.what);
+            }
+        }
+    }
+    if ctx.model.available() {
+        let req = model::request('B', &case);
+        if let Ok(r) = ctx.model.run(&[req]) {
+            let imp = model::impl_response(&built);
+            println!("# Lean model returns: {}", r[0].strip_prefix("O ").and_then(unhex).map(|s| format!("{:?}", s)).unwrap_or(r[0].clone()));
+            if r[0] != imp {
+                println!("# implementation and model differ on this input");
+                bad += 1;
+            }
+        }
+    }
+    if bad > 0 {
+        println!("VIOLATION property={} replay={}", prop, path);
+        1
+    } else {
+        println!("# the recorded input no longer fails");
+        0
+    }
+}
+
 fn main() {
     let args: Vec<String> = std::env::args().collect();
     match args.get(1).map(|s| s.as_str()) {
@@ -301,6 +368,7 @@ fn main() {
             }
         }
         Some("check") => std::process::exit(run_check(&args)),
+        Some("replay") => std::process::exit(run_replay(&args)),
         Some("extract") => extract(&args[2]),
         Some("corr") => corr(&args[2], args.get(3).and_then(|s| s.parse().ok()).unwrap_or(1)),
         _ => eprintln!("usage: gv probe"),
